@@ -9,6 +9,8 @@ Known finding: the junction defect outside the class `z and p` (DESIGN 6/C04).""
 import json
 import os
 
+import time
+
 import common
 import hcm
 
@@ -101,6 +103,7 @@ def run(res):
                        '(counted distinct by sequence); sequences outside the class are compared model-vs-implementation and feed the known finding')
     common.standard_proof_stage(res, 'C04')
 
+    res.cov.setdefault('timing_s', []).append(round(time.time() - res.t0, 1))
     # ---- cases
     seqs = corpus_cases()
     if quick:
@@ -124,6 +127,7 @@ def run(res):
             uniq.append(s)
     seqs = uniq
 
+    res.cov.setdefault('timing_s', []).append(round(time.time() - res.t0, 1))
     # ---- D1: implementation on every case, correspondence with the model, oracle vs Coq spec
     outs = hcm.pmap(hcm._w_single, seqs)
     terms, owner, impl_exc = [], [], 0
@@ -145,6 +149,7 @@ def run(res):
                not bad, 'disagreeing sequences: %s\n%s' % ([seqs[owner[j]] for j in bad[:6]], log[-1200:]))
     res.cov['correspondence_disagreements'] = len(bad)
 
+    res.cov.setdefault('timing_s', []).append(round(time.time() - res.t0, 1))
     # ---- D2: the property's relation on the implementation, every case
     nontriv, hist, n_viol = set(), {}, 0
     inclass = []
@@ -170,6 +175,7 @@ def run(res):
     for s in [seqs[i] for i in inclass[:3]] + seqs[len(seqs) // 2:len(seqs) // 2 + 3]:
         res.sample({'sequence': s, 'z': hcm.z_class(s), 'p': hcm.p_class(s), 'steady_cycles': hcm.steady_cycles(s)})
 
+    res.cov.setdefault('timing_s', []).append(round(time.time() - res.t0, 1))
     # ---- D3: refinement by non-reversal samples + stationarity of a third pass (implementation only, in the class)
     pick = [seqs[i] for i in inclass if len(seqs[i]) <= 30]
     rng.shuffle(pick)
@@ -202,6 +208,7 @@ def run(res):
     res.cov['refinement_pairs'] = len(pairs)
     res.cov['three_pass_runs'] = len(t3)
 
+    res.cov.setdefault('timing_s', []).append(round(time.time() - res.t0, 1))
     # ---- search seeded from disagreeing cases (only when the tie broke): neighbours of the disagreeing sequences
     if badset or bad3:
         extra = []
@@ -228,6 +235,7 @@ def run(res):
                               observed_pass2=[r for r in hcm.load_rows(hcm.impl_run(s2)[0]) if r[3] == 2], expected_pass2=hcm.steady_cycles(s2))
         res.add_cases(len(extra), 0)
 
+    res.cov.setdefault('timing_s', []).append(round(time.time() - res.t0, 1))
     # ---- E: known findings
     res.replay_known(lambda e: hcm.c04_relation(e['witness']['sequence'], hcm.impl_run(e['witness']['sequence'])[0]) is not None)
 
